@@ -3,6 +3,7 @@ package rig
 import (
 	"fmt"
 	"net/netip"
+	"testing/synctest"
 	"time"
 
 	"github.com/pion/ice/v4"
@@ -87,11 +88,11 @@ func NewDuo(c *core.Ctx, cfg DuoCfg) (*Duo, error) {
 	if d.A, err = mk("A", d.HA, cfg.AliasA, cfg.OptsA); err != nil {
 		return nil, fmt.Errorf("agent A: %w", err)
 	}
-	c.Defer(func() { _ = d.A.A.Close() })
+	c.Defer(func() { CloseReleasing(d.W, d.A.A) })
 	if d.B, err = mk("B", d.HB, cfg.AliasB, cfg.OptsB); err != nil {
 		return nil, fmt.Errorf("agent B: %w", err)
 	}
-	c.Defer(func() { _ = d.B.A.Close() })
+	c.Defer(func() { CloseReleasing(d.W, d.B.A) })
 	return d, nil
 }
 
@@ -138,4 +139,32 @@ func (d *Duo) Reachable(src, dst netip.Addr) bool {
 // Bidirectional reports whether the candidate address pair works both ways.
 func (d *Duo) Bidirectional(l, r netip.Addr) bool {
 	return d.Reachable(l, r) && d.Reachable(r, l)
+}
+
+// CloseReleasing closes an agent from a helper goroutine while releasing callers parked in the simulated
+// network (a gatherer parked in a simulated listen would otherwise keep Close waiting for ever).
+func CloseReleasing(w *simnet.World, a *ice.Agent) bool {
+	done := make(chan struct{})
+	go func() {
+		_ = a.Close()
+		close(done)
+	}()
+	for i := 0; i < 400; i++ {
+		synctest.Wait()
+		select {
+		case <-done:
+			for p := w.Parked(); len(p) > 0; p = w.Parked() {
+				w.Release(p[0])
+				synctest.Wait()
+			}
+			return true
+		default:
+		}
+		if p := w.Parked(); len(p) > 0 {
+			w.Release(p[0])
+			continue
+		}
+		time.Sleep(50 * time.Millisecond)
+	}
+	return false
 }
